@@ -512,6 +512,10 @@ func (r *runner) doStep(st Step) {
 	case "closefail": // Close will close the channel and complain: how the connection ended is what ended it, not this
 		r.ch.FailClose(errors.New("transport: error while closing"))
 	case "stop":
+		if s.Holding() { // whoever is held may hold the server's lock: Stop waits for it, on a goroutine of its own
+			go func() { r.rec.Log("StopB"); r.srv.Stop(); r.rec.Log("StopE") }()
+			break
+		}
 		r.rec.Log("StopB")
 		r.srv.Stop()
 		r.rec.Log("StopE")
@@ -600,6 +604,8 @@ func (r *runner) doStep(st Step) {
 			kind = "close"
 		}
 		s.HoldOp(kind)
+	case "holdlog": // hold whoever writes the next log line containing st.Kind, where it writes it
+		s.HoldLog(st.Kind)
 	case "unhold":
 		s.Unhold()
 	case "rand":
@@ -722,6 +728,7 @@ func Run(t *testing.T, sc *Scenario, emit func(evs []vh.Event, stats map[string]
 		r.ch.InCloseHook = func() { s.InOp("close", "s1") }
 		conc := sc.Opts.Conc
 		sopts := &jrpc2.ServerOptions{Concurrency: conc, AllowPush: sc.Opts.Push, DisableBuiltin: sc.Opts.NoBuiltin}
+		sopts.Logger = func(text string) { s.InLog(text) } // (a scheduling point where a scenario asks for one, nothing else)
 		if sc.Opts.BaseCtx {
 			r.baseCtx, r.baseCancel = context.WithCancel(context.Background())
 			defer r.baseCancel()
